@@ -553,3 +553,27 @@ func Verif_C10_CancelWhileSourceStalls() {
 	rt.WaitIdle()
 	rt.Assert(rt.Live() == 0, "no goroutine started by the call remains alive")
 }
+
+//verif:entry dpor tier=thorough steps=4000000 cover=repanic
+//verif:doc MapReduce with TWO panicking mappers: 2 items x 2 workers, both mappers panic after a yield; ALL interleavings (DPOR): the call re-raises one of the two panics (never hangs), and no goroutine is left - the panic hand-over is written at most once however the two panics interleave.
+func Verif_C10_TwoPanics() {
+	w := c10NewWorld(2, 2, 1)
+	res := &c10Result{}
+	func() {
+		defer func() { res.panicked = recover() }()
+		res.val, res.err = MapReduce(w.generate(c10None, -1), func(item int, writer Writer[c10Msg], cancel func(error)) {
+			w.usersRunning++
+			defer func() { w.usersRunning-- }()
+			rt.Yield()
+			if item == 0 {
+				panic("c10: mapper panic 0")
+			}
+			panic("c10: mapper panic 1")
+		}, w.reducer(0, c10None, -1), WithWorkers(2))
+		res.returned = true
+	}()
+	s, _ := res.panicked.(string)
+	rt.Cover("repanic")
+	rt.Assert(s == "c10: mapper panic 0" || s == "c10: mapper panic 1", "one of the user panics is re-raised")
+	w.checkQuiescent(res)
+}
